@@ -302,7 +302,16 @@ func (n *node) handle(m wireMsg) {
 			n.problem("Deliver panicked on %s from %s: %v", msgName(m.data), m.from.name, r)
 		}
 	}()
-	out, err := n.ch.Deliver(nil, m.data)
+	// The channel is handed a transport buffer that is recycled as soon as Deliver returns (the contract
+	// of p2p.Receiver): whatever the channel wants to keep it has to copy.
+	wire := append([]byte{}, m.data...)
+	out, err := n.ch.Deliver(nil, wire)
+	if out != nil {
+		out = append([]byte{}, out...)
+	}
+	for i := range wire {
+		wire[i] = 0xDD
+	}
 	if debugWire {
 		n.net.logf("%s <- %s %s (%d bytes) app=%v err=%v", n.name, m.from.name, msgName(m.data), len(m.data), out != nil, err)
 	}
